@@ -3,6 +3,7 @@ C04 — emptiness and determinism tests are exact; the language-equivalence orac
 -/
 import Pfl.Proofs.FABase
 import Pfl.Oracle.LangEquiv
+import Pfl.Proofs.FAOracle
 namespace Pfl
 namespace ENFA
 variable {σ τ : Type} [DecidableEq σ] [DecidableEq τ]
@@ -11,15 +12,47 @@ variable {σ τ : Type} [DecidableEq σ] [DecidableEq τ]
 theorem langDiff_none_iff (A : ENFA σ) (B : ENFA τ) (hA : A.WF) (hB : B.WF) (fuel : Nat)
     (r : Option (List Nat)) (h : A.langDiff B fuel = some r) :
     r = none ↔ ∀ w, A.Lang w ↔ B.Lang w := by
-  sorry
+  rw [langDiff_eq] at h
+  obtain ⟨res, hres, hr⟩ := Option.map_eq_some_iff.mp h
+  have hsound := diffSeen_sound A B fuel res hres
+  have hcompl := diffSeen_complete A B fuel res hres
+  subst hr
+  simp only [Option.map_eq_none_iff, List.find?_eq_none, bne_iff_ne, ne_eq, Decidable.not_not]
+  constructor
+  · intro hall w
+    by_cases hw : ∀ a ∈ w, a ∈ allSyms A B
+    · obtain ⟨m, hm, hmk⟩ := hcompl w hw
+      have := hall m hm
+      rw [hmk] at this
+      rw [← hasFinal_foldl A hA, ← hasFinal_foldl B hB, this]
+    · exact ⟨fun h => absurd (lang_allSyms_left A B h) hw,
+        fun h => absurd (lang_allSyms_right A B h) hw⟩
+  · intro hall n hn
+    obtain ⟨h1, h2⟩ := hsound n hn
+    have := hall n.2
+    rw [← hasFinal_foldl A hA, ← hasFinal_foldl B hB, ← h1, ← h2] at this
+    exact Bool.eq_iff_iff.mpr this
 
 /-- a returned word really distinguishes the two languages -/
 theorem langDiff_some (A : ENFA σ) (B : ENFA τ) (hA : A.WF) (hB : B.WF) (fuel : Nat)
     (w : List Nat) (h : A.langDiff B fuel = some (some w)) : ¬ (A.Lang w ↔ B.Lang w) := by
-  sorry
+  rw [langDiff_eq] at h
+  obtain ⟨res, hres, hr⟩ := Option.map_eq_some_iff.mp h
+  obtain ⟨n, hfind, hn2⟩ := Option.map_eq_some_iff.mp hr
+  have hn : n ∈ res := List.mem_of_find?_eq_some hfind
+  have hp := List.find?_some hfind
+  obtain ⟨h1, h2⟩ := diffSeen_sound A B fuel res hres n hn
+  subst hn2
+  rw [← hasFinal_foldl A hA, ← hasFinal_foldl B hB, ← h1, ← h2]
+  intro hiff
+  have := Bool.eq_iff_iff.mpr hiff
+  simp [this] at hp
 
 theorem member_iff (A : ENFA σ) (w : List Nat) : A.member w = true ↔ A.Lang w := by
-  sorry
+  have h := acceptsE_iff_lang A (w.map some)
+  have hw : (w.map some).filterMap id = w := by simp
+  rw [hw] at h
+  exact h
 
 end ENFA
 end Pfl
